@@ -78,7 +78,8 @@ CHECKS = {
         level_note='Trusted: harness/ref/match, harness/ref/codec (strict parsing of every received byte), the reference model in harness/p_broker/model.go, and the barrier argument (a PINGRESP proves that everything the broker did for earlier packets of that client is committed). Known finding empty-level is excluded by a variant model run in lock-step.',
         rule='rapid-generated plans; non-trivial = a session was resumed that held subscriptions; distinct = FNV-64 of the plan JSON',
         assumptions=['offline queueing/redelivery is unsupported by the library (README) and not asserted', 'one live connection per client identifier: the harness waits for teardown-done before reusing an id'],
-        units=[dict(name="sequential", test="TestC10", checks=(6000, 500000), shards=(4, 14), timeout=(240, 3000))]),
+        units=[dict(name="sequential", test="TestC10", checks=(6000, 500000), shards=(4, 14), timeout=(240, 3000)),
+               dict(name="resume-during-teardown", test="TestC10Overlap", checks=(1600, 200000), shards=(4, 14), timeout=(240, 3000))]),
 
     "C11": dict(
         pkg="p_broker", level="exploration",
